@@ -461,7 +461,11 @@ class CursorRun:
         unspec = spec.endswith('UNSPEC')
         if kind == 'truncated':
             # the view is shorter than the image: the protocol specification is silent, the size checks of the
-            # model are compared with the real ones
+            # model are compared with the real ones - up to the first call that leaves the cursor behind the end
+            # of the view (from there on SBEPP_SIZE_CHECK(begin > end) passes vacuously and the internal checks
+            # of the random-access getters, which the model does not have, decide)
+            vs = int(line.split()[4])
+            impl, model = cut_after_end(impl, vs), cut_after_end(model, vs)
             spec_ok = True
             spec = model
         elif unspec:
@@ -502,6 +506,16 @@ class CursorRun:
         if len(chk.cov['samples']) < 6 and ncalls >= 3:
             chk.sample({'stream': kind, 'message': m['name'], 'script': G.items_sexp(script)[:300],
                         'spec': spec[:300], 'impl_status': st})
+
+
+def cut_after_end(events, vsize):
+    out = []
+    for e in events.split(';'):
+        out.append(e)
+        cur = e.rsplit('@', 1)[-1]
+        if cur.isdigit() and int(cur) > vsize:
+            break
+    return ';'.join(out)
 
 
 def flat_level(bo, level, v):
